@@ -201,8 +201,9 @@ def build(tier):
                  ("uf_facts_pow", "x^0, x^1, 1^e, 0^e of overflowing_pow and checked_pow")):
         obs.append(vf.Ob(n, "C07", panic_prop="C17", what="facts assumed of the uninterpreted arithmetic hold of the real std operations: " + w))
     obs.append(vf.Ob("apply_on_jump", "C07", panic_prop="C17", what="ResetKnown::Defs on a Jump pseudo-op removes only $of/$err"))
-    hs.append("#[kani::proof] #[kani::unwind(7)] #[kani::stub(KnownValues::remove_reg_and_dependents, spec_remove_reg_and_dependents)] #[kani::stub(ResetKnown::apply, spec_apply)] #[kani::stub(VirtualOp::has_side_effect, spec_has_side_effect)] fn step_jnz() { check_jnz() }")
-    obs.append(vf.Ob("step_jnz", "C07", panic_prop="C17", what="constant_propagate on `JNZ reg LABEL`: NOOP iff reg == 0, unconditional iff reg != 0; jump-target count decremented exactly when the jump disappears; facts kept are true"))
+    if tier == "thorough":   # 15 min alone on an idle machine: too close to the quick tier's per-harness limit
+        hs.append("#[kani::proof] #[kani::unwind(7)] #[kani::stub(KnownValues::remove_reg_and_dependents, spec_remove_reg_and_dependents)] #[kani::stub(ResetKnown::apply, spec_apply)] #[kani::stub(VirtualOp::has_side_effect, spec_has_side_effect)] fn step_jnz() { check_jnz() }")
+        obs.append(vf.Ob("step_jnz", "C07", panic_prop="C17", what="constant_propagate on `JNZ reg LABEL`: NOOP iff reg == 0, unconditional iff reg != 0; jump-target count decremented exactly when the jump disappears; facts kept are true"))
     hs.append("#[kani::proof] #[kani::unwind(33)] fn def_tables() { def_tables_check() }")
     obs.append(vf.Ob("def_tables", "C07", panic_prop="C17", what="the def_registers / def_const_registers tables (real match arms) give [dst] and [$of,$err] for every ALU-class opcode, [] and [$of,$err] for NOOP"))
     STUBS2 = "#[kani::stub(VirtualOp::def_registers, def_registers_by_insert)] #[kani::stub(VirtualOp::def_const_registers, def_const_registers_by_insert)] "
@@ -218,7 +219,7 @@ def build(tier):
     if left:
         raise vf.Undecided("c07 template placeholders left: %s" % left[:5])
     u = vf.KaniUnit("c07_constprop", {"src/lib.rs": src, "src/vm_alu.rs": open(vf.ROOT + "/spec/vm_alu.rs").read()}, obs,
-                    deps={"either": "1"}, timeout_s=1200, jobs=9, auto_files=[CP])
+                    deps={"either": "1"}, timeout_s=1800 if tier == "quick" else 3600, jobs=9, auto_files=[CP])
     u.fragments = [vf.frag_record(v) for k, v in fr.items()]
     u.rewrites = rewrites + [{"rule": "R1", "before": "derives/visibility of extracted enums, structs, consts", "after": "plain derives, pub", "times": 15},
                              {"rule": "slice", "before": "use-register loop (loop #2 of constant_propagate) and the JNZ rewrite (text between that loop and the macro)", "after": "copied by byte offsets", "times": 2}]
